@@ -73,7 +73,7 @@ def floors(tier):
          "fermionic_cases": 10 * k, "bond_growth_runs": 3 * k,
          "omitted:all": 4 * k, "omitted:none": 20 * k, "omitted:times": k, "omitted:dt": k,
          "H_special:zero": k, "H_special:identity": k, "H_special:scaled": 3 * k, "start:scaled": 10 * k,
-         "N=1": 4 * k, "N=2": 8 * k, "must_reject_ok": 3 * k, "tiny_dt_runs": 2 * k, "2site_or_12site_with_empty_opts_svd": 3 * k}
+         "N=1": 4 * k, "N=2": 8 * k, "must_reject_ok": 3 * k, "tiny_dt_runs": 2 * k, "intervals_below_1e-12": k, "2site_or_12site_with_empty_opts_svd": 3 * k}
     for m in ("1site", "2site", "12site"):
         for o in ("2nd", "4th"):
             f[f"mo:{m}:{o}"] = 3 * k
@@ -439,6 +439,8 @@ def draw_grid(rng, unit, light=False, tiny=False):
     times = [t0]
     for _ in range(m):
         k = rng.choice((1, 1, 2) if light else (1, 1, 2, 3))
+        if dt < 1e-11:
+            k = 1           # intervals at the scale of the library's absolute 1e-12 guard: one step is the documented minimum
         length = k * dt if rng.random() < 0.35 else (k - 1 + rng.uniform(0.15, 0.9)) * dt
         times.append(times[-1] + length)
     return tuple(times), dt
@@ -549,7 +551,7 @@ def run_case(ctx, idx):
                                {"D_total": 100000, "tol": 1e-13}, {}, {}, {"D_total": 1}))
         binding = opts_svd == {"D_total": 1} and method != "1site" and Dfull > 1
     unit = 1.0 / sec.scale if sec.scale > 0 else 1.0
-    tiny = rng.random() < 0.06
+    tiny = rng.random() < (0.5 if (special is not None and special.get("log10", 0) >= 4) else 0.06)
     times, dt = draw_grid(rng, unit, light=(order == "4th"), tiny=tiny)
     single_time = len(times) == 2 and times[0] == 0.0 and rng.random() < 0.4
     run = {"times": times, "times_arg": (times[1] if single_time else (list(times) if rng.random() < 0.3 else times)),
@@ -614,6 +616,8 @@ def run_case(ctx, idx):
         ctx.count("start:scaled")
     if tiny and "dt" not in run["omit"] and "times" not in run["omit"]:
         ctx.count("tiny_dt_runs")
+        if min(b - a for a, b in zip(times[:-1], times[1:])) < 1e-12:
+            ctx.count("intervals_below_1e-12")
     if opts_svd == {} and method != "1site":
         ctx.count("2site_or_12site_with_empty_opts_svd")
     if binding:
